@@ -386,13 +386,27 @@ fn c15_for<S: Sc>(ctx: &Ctx, subs: &mut Vec<Sub>) {
                     }
                 }
             }
+        } else if S::KIND == Kind::Cc14 && !ctx.reduced {
+            // cheap enough for every ordered pair in the quick tier as well
+            for i in 0..16u8 {
+                for j in 0..16u8 {
+                    if i != j {
+                        pairs.push((i, j));
+                    }
+                }
+            }
         } else {
             for i in 0..16u8 {
                 pairs.push((i, (i + 8) % 16));
                 if i > 0 && S::KIND != Kind::Polling {
                     pairs.push((0, i));
+                    pairs.push((i, i ^ 1));
+                    pairs.push((15, 15 - i));
                 }
             }
+            pairs.sort();
+            pairs.dedup();
+            pairs.retain(|p| p.0 != p.1);
             if ctx.reduced {
                 pairs.truncate(4);
             }
